@@ -12,7 +12,7 @@ PARTIAL = [
     "A2.3: the literal transcription (basisFunsDersA23, compared with helpers.basis_function_ders by the C02 stream bders23) is proved equal to the specification table in C02; rows-sum-to-zero and row 0 = A2.2 are proved for that table",
     "A2.4 (basis_function_one) = Cox-de Boor is proved on the domain except where it is false as worded: the last function at the last knot returns 1 (half-open Cox-de Boor: 0; proved equal to the A2.2 entry of the last span for end-clamped vectors), and the first function at U[0] returns 1 also outside the domain of an unclamped vector / for start multiplicity > p+1 (hypotheses U p <= u, U 0 < U (p+1))",
     "A2.5 (basis_function_ders_one, literal model) = column of the A2.3 specification table is proved for order <= degree on half-open spans; at the last knot A2.5 returns zeros (no boundary special case, unlike A2.4) - covered only by the closed form",
-    "support of a Cox-de Boor function without a span index (coxDeBoor_support, _zero_set, _support_by_multiplicity): for sorted knots, every degree / index and EVERY number u, N_{i,p}(u) >= 0 and N_{i,p}(u) != 0 iff U_i <= u < U_{i+p+1} and (U_i < u or U_{i+p} <= u) - proved in full; A2.5 at the last knot as coded (basisFunDersOne_last_knot: order+1 zeros for every accepted index and every order, also order > degree - the guard returns first) is proved, and that it is NOT the left-limit value / derivatives there (basisFunDersOne_last_knot_differs: A2.5 gives 0, A2.4 gives 1, row 0 of A2.3 on the last span gives 1; witness with derivatives 0,0,0 against 1,2,2); the exact oracle judges A2.5 only for u below the domain end, at the last knot only the correspondence stream bdersone (model = code) covers it - recorded observation, supersedes the last clause of the A2.5 item above",
+    "support of a Cox-de Boor function without a span index (coxDeBoor_support, _zero_set, _support_by_multiplicity): for sorted knots, every degree / index and EVERY number u, N_{i,p}(u) >= 0 and N_{i,p}(u) != 0 iff U_i <= u < U_{i+p+1} and (U_i < u or U_{i+p} <= u) - proved in full; A2.5 at the last knot as coded (basisFunDersOne_last_knot: order+1 zeros for every accepted index and every order, also order > degree - the guard returns first) is proved, and that it is NOT the left-limit value / derivatives there (basisFunDersOne_last_knot_differs: A2.5 gives 0, A2.4 gives 1, row 0 of A2.3 on the last span gives 1; witness with derivatives 0,0,0 against 1,2,2); OPEN FINDING F-03c (known_findings.json): the exact oracle now judges A2.5 at the last knot of the vector too (against the A2.3 column of the span found = left limit, as the property asks 'at both ends, all derivative orders') and classifies exactly this failure pattern (u = last knot, all-zero answer) as F-03c; only at an INTERIOR domain end of an unclamped vector the comparison is skipped (A2.5 right-continuous, A2.3 on the left piece); the correspondence stream bdersone (model = code) covers every parameter - supersedes the last clause of the A2.5 item above",
 ]
 PARTIAL.append("F-03b (open, recorded): for a knot vector whose END knot is repeated more than p+1 times, A2.4 (basis_function_one) at u = the last knot returns 1 for the LAST function (the special case of The NURBS Book, `i == m-p-1 and u == U[m]`), which has empty support there, and 0 for the last function with non-empty support, whose Cox-de Boor left limit (= the A2.2 entry on the span the repaired search finds) is 1; the A2.4 sentence above ('the last function at the last knot returns 1 ... proved equal to the A2.2 entry of the last span for end-clamped vectors') is about end-clamped vectors with EXACTLY p+1 equal end knots (KnotsOk: non-empty last span), where the last function is the one with the value 1; for end multiplicity > p+1 A2.4 has no theorem, it is judged by the exact oracle of the stream empty-last-span (kind span-end, every function index) and classified as F-03b; unclamped vectors with U_{n-1} = U_n (end-of-domain multiplicity <= p) are judged too and A2.4 is right there")
 PARTIAL.append("knot vectors with an empty last domain span (F-01b, repaired): the span statements are proved for the literal models of the REPAIRED searches (findSpanLinearR / findSpanBinR, Model/SpanR.lean: first loop, then the step back while the span is empty; tolerance shortcut + step back, then the unchanged bisection) - findSpanR_eq_unrepaired (= the searches without step back whenever the span found is not empty, so every KnotsOk theorem transfers), findSpanLinearR_spec (every sorted knot vector with U_p < U_n, every u of the closed domain: legal NON-EMPTY span containing u, half-open below U_n, the LAST NON-EMPTY span at U_n), findSpanLinearR_unique, findSpanBinR_eq_linearR (tolerance hypothesis stated for the last non-empty span), witness findSpanR_witness_F01b; correspondence with the real functions at u = U_n too (stream empty-last-span: kind span-end now has a model line `span linr` / `span binr` besides the oracle; ordinary knot vectors: stream ordinary-r, kinds span-linr / span-binr). NOT lifted: the whole-domain composition of the search with A2.4 (basisFunOne_eq_basisFuns_domain keeps its end-clamped hypothesis); the ops `span lin` / `span bin` (findSpanLinear / findSpanBin, no step back) still answer ERR when the span they find is empty; the consumers of the repaired linear search are lifted in C01 / C02 (point evaluation, evaluate_list, sampled grids, derivatives of curves and surfaces through findSpanLinearR: Model/SpanRGrid.lean, theorems *_repaired_* there), all resting on findSpanLinearR_spec")
@@ -279,11 +279,17 @@ def oracle(c):
         for kk in range(1, p + 1):
             if sum(ders[kk], q(0)) != 0:
                 return "derivatives of order %d of the basis functions sum to %s, not 0" % (kk, fr(sum(ders[kk], q(0))))
-        if u < last:
+        # A2.5 against the A2.3 column: below the domain end, and AT the last knot of the vector (property: "at both ends, all
+        # derivative orders"; there A2.5 returns zeros for every function - recorded finding F-03c, see classify).  Skipped only at
+        # an INTERIOR domain end (unclamped vectors): A2.5 is right-continuous there, A2.3 on the span found is the left piece
+        if u < last or kv[n] == kv[-1]:
             for r in range(p + 1):
                 one = helpers.basis_function_ders_one(p, U, ks - p + r, uu, p)
                 for kk in range(p + 1):
                     if one[kk] != ders[kk][r]:
+                        if u == kv[-1]:
+                            return "basis_function_ders_one(i=%d)[%d] = %s at the last knot (all entries: %s), basis_function_ders on the span found (left limit) gives %s" % (
+                                ks - p + r, kk, fr(one[kk]), show_list(one), fr(ders[kk][r]))
                         return "basis_function_ders_one(i=%d)[%d] = %s, basis_function_ders gives %s" % (ks - p + r, kk, fr(one[kk]), fr(ders[kk][r]))
         return None
     if k == 'kvgen':
@@ -368,6 +374,11 @@ def classify(c, why):
         near = [t for t in kv[p + 1:n] if t < end and end - t <= TOL_SPAN]
         if near and abs(end - u) <= TOL_SPAN:
             return 'F-17b'
+    if why.startswith('basis_function_ders_one(i=') and 'at the last knot' in why and 'kv' in d and 'u' in d:
+        # F-03c: A2.5 has no end special case; at u = the LAST knot its support test `u >= U[i+p+1]` is met by every function
+        # and it returns zeros for every order.  Exactly this pattern: u = last knot and an all-zero answer
+        if d['u'] == d['kv'][-1] and '(all entries: %s)' % ",".join(['0'] * (d['p'] + 1)) in why:
+            return 'F-03c'
     if why.startswith('basis_function_one(i=') and 'kv' in d and 'u' in d:
         # F-03b: A2.4's special case `i == m-p-1 and u == U[m]` returns 1 for the LAST function; when the end knot is
         # repeated more than p+1 times that function has empty support and the value belongs to the last function with
@@ -393,4 +404,14 @@ def witness(fid):
         a = helpers.basis_function_one(1, kv, 3, q(1)); b = helpers.basis_function_one(1, kv, 2, q(1))
         N = helpers.basis_function(1, kv, helpers.find_span_linear(1, kv, 4, q(1)), q(1))
         return "basis_function_one: N_3(1) = %s, N_2(1) = %s; A2.2 on the span found: %s" % (fr(a), fr(b), show_list(N)) if (a, b) != (0, 1) else None
+    if fid == 'F-03c':
+        from geomdl import helpers
+        kv = qs([0, 0, 0, 1, 1, 1])
+        one = [list(helpers.basis_function_ders_one(2, kv, i, q(1), 1)) for i in range(3)]
+        ders = helpers.basis_function_ders(2, kv, helpers.find_span_linear(2, kv, 3, q(1)), q(1), 1)
+        a24 = helpers.basis_function_one(2, kv, 2, q(1))
+        if all(x == 0 for r in one for x in r) and a24 == 1:
+            return "basis_function_ders_one(2, [0,0,0,1,1,1], i, 1, 1) = %s for i = 0,1,2; basis_function_one(.., 2, 1) = %s; basis_function_ders rows: %s" % (
+                ";".join(show_list(r) for r in one), fr(a24), ";".join(show_list(list(r)) for r in ders))
+        return None
     return None
